@@ -234,6 +234,9 @@ func runProperty(prop, tier string, workers int) int {
 	var specs []*HarnessSpec
 	for _, s := range allSpecs() {
 		if s.Property == prop {
+			if only := os.Getenv("VERIF_ONLY_HARNESS"); only != "" && s.Name != only {
+				continue // development aid (validating one harness of a deeper tier); never set by a registered command
+			}
 			specs = append(specs, s)
 		}
 	}
